@@ -1098,6 +1098,10 @@ def triggers(case):
                 items = [(name, rows, code, forced_nd(name))]
                 if mode == 1:
                     nddt.pop(name, None)
+                if o[0] == "arr" and forced_nd(name) is None and \
+                        list(o[4]) != list(o[3]) and \
+                        list(o[4][1:]) != list(o[3]):
+                    continue        # bad shape: the call raises, no dataset
             for key, rows, code, forced in items:
                 if not rows:
                     break
